@@ -197,6 +197,10 @@ def oracle_ble(case, out):
         if big or not out["sizes"]:
             bad.append(("ble-write:fragment-exceeds-size", f"fs={case['fs']} len={len(case['body'])}: write sizes {out['sizes'][:6]} "
                         f"exceed the negotiated {out['budget']}"))
+        if case["mode"] == "c" and out["sizes"] and out["wctr"] != case["c0"] + len(out["sizes"]):
+            bad.append(("ble-write:counter-desync", f"fs={case['fs']} len={len(case['body'])}: {len(out['sizes'])} fragments were sealed from nonce "
+                        f"{case['c0']} but the session's encryption counter is {out['wctr']} afterwards (the accessory expects "
+                        f"{case['c0'] + len(out['sizes'])} next): the following request cannot be opened"))
         if any(p is None for p in out["plains"]):
             bad.append(("ble-write:nonce-sequence", "a written fragment does not open under the accessory's next nonce"))
         else:
@@ -510,9 +514,24 @@ async def impl_ble_hist(case, serial):
         op = BLE_OPS[(pos + ch) % len(BLE_OPS)]
         info = dict(tid=None, want=None, frs=None)
 
+        def accessory_receive():
+            """The accessory opens the GATT writes under ITS OWN receive counter (advanced only by what it could open)."""
+            if "acc_plains" in info:
+                return info["acc_plains"]
+            plains = []
+            for w in st["writes"]:
+                p = aw.open(acc["recv"], w) if enc else w
+                plains.append(p)
+                if p is None:
+                    break
+                if enc:
+                    acc["recv"] += 1
+            plains += [None] * (len(st["writes"]) - len(plains))
+            info["acc_plains"] = plains
+            return plains
+
         def respond():
-            plains = [aw.open(acc["recv"] + j, w) if enc else w for j, w in enumerate(st["writes"])]
-            acc["recv"] += len(plains) if enc else 0
+            plains = accessory_receive()
             rq = ref.acc_reassemble(plains) if all(p is not None for p in plains) else None
             if rq is None:
                 return []                                   # a conformant accessory does not answer garbage
@@ -537,7 +556,8 @@ async def impl_ble_hist(case, serial):
         except Exception as e:  # noqa
             read = exc_token(e)
         writes = list(st["writes"])
-        plains = [aw.open(c0 + j, w) if enc else w for j, w in enumerate(writes)]
+        acc_plains = accessory_receive()                    # what the accessory could open (its own nonce sequence)
+        plains = [aw.open(c0 + j, w) if enc else w for j, w in enumerate(writes)]      # under the controller's counter: model format
         tid = info["tid"] if info["tid"] is not None else (plains[0][2] if plains and plains[0] is not None and len(plains[0]) >= 3 else 1)
         if enc:
             wr = [toy(c0 + j, p) if p is not None else b"\xff" for j, p in enumerate(plains)]
@@ -548,7 +568,7 @@ async def impl_ble_hist(case, serial):
             vctr["d"] += st["reads"]
             e1, d1 = vctr["e"], vctr["d"]
         out.append(dict(ch=ch, enc=enc, ln=ln, op=op, iid=iid, body=body, c0=c0, d0=d0, e1=e1, d1=d1, tid=tid, read=read, fault=fault,
-                        sizes=[len(w) for w in writes], plains=plains, impl_w=f"ok {e1 if enc else c0 + len(writes)} {frs_str(wr)}",
+                        sizes=[len(w) for w in writes], plains=acc_plains, ctl_plains=plains, impl_w=f"ok {e1 if enc else c0 + len(writes)} {frs_str(wr)}",
                         want=info["want"], resp_frs=info["frs"], acc=dict(acc), unread=len(st["script"] or [])))
         prev_tid = tid
     return mtu, out
@@ -566,12 +586,22 @@ def oracle_ble_hist(case, mtu, o):
         bad.append(("ble-session:write-exceeds-negotiated", f"GATT write sizes {o['sizes'][:6]} exceed the negotiated ATT payload {budget} "
                     f"(mtu {mtu}, max_write_without_response {case['mwwr']}, {'secure session' if o['enc'] else 'plain'})"))
     if any(p is None for p in o["plains"]):
-        bad.append(("ble-session:nonce-sequence", "a written fragment does not open under the accessory's next nonce"))
+        j = [p is None for p in o["plains"]].index(True)
+        bad.append(("ble-session:accessory-cannot-decrypt", f"GATT write {j} of {len(o['plains'])} does not open under the accessory's next receive "
+                    f"nonce {o['acc']['recv']} (the controller sealed this request from counter {o['c0']}: earlier requests on the session already "
+                    f"consumed the accessory's nonces below {o['acc']['recv']}); controller read: {o['read'][:40]}"))
         return bad
     got = ref.acc_reassemble(o["plains"])
-    if got is None or (got[0], got[2], got[3]) != (o["op"], o["iid"], bytes(o["body"])):
-        bad.append(("ble-session:reassembly", f"accessory reassembles {None if got is None else (got[0], got[1], got[2], len(got[3]))} "
+    if got is None:
+        bad.append(("ble-session:accessory-cannot-reassemble", f"the {len(o['plains'])} decrypted fragments (sizes {[len(p) for p in o['plains']][:6]}) are not a "
+                    f"well-formed HAP PDU for op {o['op']} iid {o['iid']} {len(o['body'])} bytes; controller read: {o['read'][:40]}"))
+        return bad
+    if (got[0], got[2], got[3]) != (o["op"], o["iid"], bytes(o["body"])):
+        bad.append(("ble-session:reassembly", f"accessory reassembles {(got[0], got[1], got[2], len(got[3]))} "
                     f"instead of op {o['op']} iid {o['iid']} {len(o['body'])} bytes"))
+        return bad
+    if o["want"] is None:
+        bad.append(("ble-session:accessory-gave-no-answer", f"the accessory reassembled the request but produced no answer; controller read: {o['read'][:40]}"))
         return bad
     if o["fault"] == "stale":
         if o["read"] != "err value":
@@ -1483,27 +1513,67 @@ def _run(ctx, tier, seed):
         if per_key[key] <= MAXV:
             viols.append(violation(key, what, found, **payload))
 
+    class case_guard:
+        """A harness-side exception while judging ONE case is recorded for that case (with the case as replay) and the run goes on."""
+
+        def __init__(self, stream, case):
+            self.stream, self.case = stream, case
+
+        def __enter__(self):
+            return self
+
+        def __exit__(self, et, ev, tb):
+            if et is not None and issubclass(et, Exception):
+                import traceback
+                add_v(f"harness-case-exception:{self.stream}", f"{self.stream}: harness raised {et.__name__}: {str(ev)[:120]} while judging a case "
+                      f"(the case is the replay; this is an outcome the oracle did not anticipate)", False,
+                      case=repr(self.case)[:3000], traceback="".join(traceback.format_exception(et, ev, tb))[-2500:],
+                      broken="harness/c17.py bookkeeping for this case")
+                return True
+            return False
+
+    class HarnessFail:
+        def __init__(self, tb):
+            self.tb = tb
+
+    async def safe(fn, *a):
+        try:
+            return await fn(*a)
+        except Exception:  # noqa
+            import traceback
+            return HarnessFail(traceback.format_exc()[-2500:])
+
+    def drop_failed(stream, cases, outs):
+        keep = [(c, o) for c, o in zip(cases, outs) if not isinstance(o, HarnessFail)]
+        for c, o in zip(cases, outs):
+            if isinstance(o, HarnessFail):
+                add_v(f"harness-case-exception:{stream}-run", f"{stream}: driving the implementation for one case raised outside the guarded call", False,
+                      case=repr(c)[:3000], traceback=o.tb, broken="harness/c17.py implementation runner (or an exception escaping the code under test's setup)")
+        return [c for c, _ in keep], [o for _, o in keep]
+
     # ---- enc (direct)
     enc_cases = gen_enc_direct(tier, rng(seed, "c17enc"))
     model = drv.batch([f"enc {fs} {op} {tid} {iid} {hx(d)}" for fs, op, tid, iid, d in enc_cases])
     for (fs, op, tid, iid, d), m in zip(enc_cases, model):
-        impl = impl_encode_direct(fs, op, tid, iid, d)
-        orc = oracle_enc(fs, op, tid, iid, d, impl)
-        if orc:
-            add_v(orc[0], orc[1], True, stream="enc", case=dict(fs=fs, op=op, tid=tid, iid=iid, data=hx(d)), impl=impl[:2000])
-        elif impl != m:
-            add_v("enc:model-mismatch", f"encode_pdu(fs={fs}, tid={tid}, iid={iid}, len={len(d)}): implementation {impl[:90]} != model {m[:90]}",
-                  False, stream="enc", case=dict(fs=fs, op=op, tid=tid, iid=iid, data=hx(d)), impl=impl, model=m,
-                  broken="correspondence Model/Pdu.v ble_encode <-> aiohomekit/pdu.py encode_pdu")
-        cov.case(f"e{fs},{op},{tid},{iid},{hx(d)}", True, enc_fs=fs, enc_result=impl.split(" ")[0],
-                 sample=dict(stream="enc", fs=fs, tid=tid, iid=iid, len=len(d), impl=impl[:60]) if cov.evaluations % 211 == 5 else None)
+        with case_guard("enc", (fs, op, tid, iid, len(d))):
+            impl = impl_encode_direct(fs, op, tid, iid, d)
+            orc = oracle_enc(fs, op, tid, iid, d, impl)
+            if orc:
+                add_v(orc[0], orc[1], True, stream="enc", case=dict(fs=fs, op=op, tid=tid, iid=iid, data=hx(d)), impl=impl[:2000])
+            elif impl != m:
+                add_v("enc:model-mismatch", f"encode_pdu(fs={fs}, tid={tid}, iid={iid}, len={len(d)}): implementation {impl[:90]} != model {m[:90]}",
+                      False, stream="enc", case=dict(fs=fs, op=op, tid=tid, iid=iid, data=hx(d)), impl=impl, model=m,
+                      broken="correspondence Model/Pdu.v ble_encode <-> aiohomekit/pdu.py encode_pdu")
+            cov.case(f"e{fs},{op},{tid},{iid},{hx(d)}", True, enc_fs=fs, enc_result=impl.split(" ")[0],
+                     sample=dict(stream="enc", fs=fs, tid=tid, iid=iid, len=len(d), impl=impl[:60]) if cov.evaluations % 211 == 5 else None)
 
     # ---- ble
     ble_cases = gen_ble(tier, rng(seed, "c17ble"))
 
     async def all_ble():
-        return [await impl_ble(c) for c in ble_cases]
+        return [await safe(impl_ble, c) for c in ble_cases]
     outs = asyncio.run(all_ble())
+    ble_cases, outs = drop_failed("ble", ble_cases, outs)
     wr_lines, rd_lines = [], []
     for c, o in zip(ble_cases, outs):
         m = "t" if c["mode"] == "c" else "p"
@@ -1517,45 +1587,47 @@ def _run(ctx, tier, seed):
     rd_ans = drv.batch([rd_lines[i] for i in idx_rd])
     rd_model = dict(zip(idx_rd, rd_ans))
     for i, (c, o) in enumerate(zip(ble_cases, outs)):
-        wm = wr_model[i]
-        if o["read"] in ("crash", "err value") and not o["writes"]:
-            impl_w = o["read"]            # raised before the first write
-        else:
-            impl_w = f"ok {o['wctr']} {frs_str(o['writes'])}"
-        desc = dict(stream=c["stream"], fs=c["fs"], body_len=len(c["body"]), body=hx(c["body"]) if len(c["body"]) <= 64 else f"body_of({len(c['body'])},{c['fs']})",
-                    op=c["op"], iid=c["iid"], mode=c["mode"], c0=c["c0"], d0=c["d0"], tid=o["tid"],
-                    resp=dict((k, (hx(v) if isinstance(v, (bytes, bytearray)) else v)) for k, v in c["resp"].items()
-                              if k != "body" or len(v) <= 64))
-        orc = oracle_ble(c, o)
-        for slug, text in orc:
-            add_v(slug, text, True, case=desc, impl_writes=[hx(w)[:80] for w in o["writes"][:8]], impl_sizes=o["sizes"][:50],
-                  impl_read=o["read"][:200], expected=c.get("expect"))
-        if impl_w != wm:
-            if not any(s.startswith("ble-write") for s, _ in orc):
-                add_v("ble-write:model-mismatch", f"fs={c['fs']} len={len(c['body'])} mode={c['mode']}: writes {impl_w[:100]} != model {wm[:100]}",
-                      False, case=desc, impl=impl_w[:2000], model=wm[:2000],
-                      broken="correspondence Model/Pdu.v ble_write <-> ble/client.py _write_pdu + pdu.py encode_pdu")
-        if i in rd_model:
-            rm = rd_model[i]
-            if o["read"] != rm and not any(s.startswith("ble-read") for s, _ in orc):
-                add_v("ble-read:model-mismatch", f"response script {desc['resp']}: read loop gives {o['read'][:100]} != model {rm[:100]}",
-                      False, case=desc, impl=o["read"][:2000], model=rm[:2000],
-                      broken="correspondence Model/Pdu.v read_pdu <-> ble/client.py _read_pdu + pdu.py decode_pdu*")
-        faults = ",".join(f[0] for f in c["resp"].get("faults", [])) or ("declared" if "declared" in c["resp"] else ("nolen" if c["resp"].get("nolen") else "none"))
-        cov.case(f"b{c['fs']},{c['mode']},{c['op']},{c['iid']},{hx(c['body'])},{c['resp']!r},{c['c0']},{c['d0']}",
-                 bool(o["writes"]) or not o["read"].startswith("ok"),
-                 sample=dict(stream="ble:" + c["stream"], fs=c["fs"], body_len=len(c["body"]), mode=c["mode"], n_writes=len(o["writes"]),
-                             resp_cut=c["resp"]["lens"][:8], faults=faults, impl_read=o["read"][:60]) if i % 9001 == 17 else None,
-                 ble_stream=c["stream"], ble_mode=c["mode"], ble_fs=c["fs"] if c["fs"] in REAL_FS else ("8..64" if 8 <= c["fs"] <= 64 else "other"),
-                 ble_nfrags=min(len(o["writes"]), 12) if len(o["writes"]) < 12 else "12+", ble_read=" ".join(o["read"].split(" ")[:2]) if not o["read"].startswith("ok") else "ok",
-                 ble_fault=faults, ble_resp_frags=len(c["resp"]["lens"]))
+        with case_guard("ble", {k: v for k, v in c.items() if k != "body"}):
+            wm = wr_model[i]
+            if o["read"] in ("crash", "err value") and not o["writes"]:
+                impl_w = o["read"]            # raised before the first write
+            else:
+                impl_w = f"ok {o['wctr']} {frs_str(o['writes'])}"
+            desc = dict(stream=c["stream"], fs=c["fs"], body_len=len(c["body"]), body=hx(c["body"]) if len(c["body"]) <= 64 else f"body_of({len(c['body'])},{c['fs']})",
+                        op=c["op"], iid=c["iid"], mode=c["mode"], c0=c["c0"], d0=c["d0"], tid=o["tid"],
+                        resp=dict((k, (hx(v) if isinstance(v, (bytes, bytearray)) else v)) for k, v in c["resp"].items()
+                                  if k != "body" or len(v) <= 64))
+            orc = oracle_ble(c, o)
+            for slug, text in orc:
+                add_v(slug, text, True, case=desc, impl_writes=[hx(w)[:80] for w in o["writes"][:8]], impl_sizes=o["sizes"][:50],
+                      impl_read=o["read"][:200], expected=c.get("expect"))
+            if impl_w != wm:
+                if not any(s.startswith("ble-write") for s, _ in orc):
+                    add_v("ble-write:model-mismatch", f"fs={c['fs']} len={len(c['body'])} mode={c['mode']}: writes {impl_w[:100]} != model {wm[:100]}",
+                          False, case=desc, impl=impl_w[:2000], model=wm[:2000],
+                          broken="correspondence Model/Pdu.v ble_write <-> ble/client.py _write_pdu + pdu.py encode_pdu")
+            if i in rd_model:
+                rm = rd_model[i]
+                if o["read"] != rm and not any(s.startswith("ble-read") for s, _ in orc):
+                    add_v("ble-read:model-mismatch", f"response script {desc['resp']}: read loop gives {o['read'][:100]} != model {rm[:100]}",
+                          False, case=desc, impl=o["read"][:2000], model=rm[:2000],
+                          broken="correspondence Model/Pdu.v read_pdu <-> ble/client.py _read_pdu + pdu.py decode_pdu*")
+            faults = ",".join(f[0] for f in c["resp"].get("faults", [])) or ("declared" if "declared" in c["resp"] else ("nolen" if c["resp"].get("nolen") else "none"))
+            cov.case(f"b{c['fs']},{c['mode']},{c['op']},{c['iid']},{hx(c['body'])},{c['resp']!r},{c['c0']},{c['d0']}",
+                     bool(o["writes"]) or not o["read"].startswith("ok"),
+                     sample=dict(stream="ble:" + c["stream"], fs=c["fs"], body_len=len(c["body"]), mode=c["mode"], n_writes=len(o["writes"]),
+                                 resp_cut=c["resp"]["lens"][:8], faults=faults, impl_read=o["read"][:60]) if i % 9001 == 17 else None,
+                     ble_stream=c["stream"], ble_mode=c["mode"], ble_fs=c["fs"] if c["fs"] in REAL_FS else ("8..64" if 8 <= c["fs"] <= 64 else "other"),
+                     ble_nfrags=min(len(o["writes"]), 12) if len(o["writes"]) < 12 else "12+", ble_read=" ".join(o["read"].split(" ")[:2]) if not o["read"].startswith("ok") else "ok",
+                     ble_fault=faults, ble_resp_frags=len(c["resp"]["lens"]))
 
     # ---- ble histories on one real client object
     hist_cases = gen_ble_hist(tier, rng(seed, "c17hist"))
 
     async def all_hist():
-        return [await impl_ble_hist(c, i) for i, c in enumerate(hist_cases)]
+        return [await safe(impl_ble_hist, c, i) for i, c in enumerate(hist_cases)]
     houts = asyncio.run(all_hist())
+    hist_cases, houts = drop_failed("ble-session", hist_cases, houts)
     # pass 0: the model's fragment sizes; pass 1: per-step writes (swr) and whole fault-free segments (loop);
     # pass 2: the faulty last step, read with the counters the model's loop ended with
     fkeys = sorted({(mtu, c["mwwr"] or 0, ov) for c, (mtu, _) in zip(hist_cases, houts) for ov in (0, 16)})
@@ -1582,55 +1654,60 @@ def _run(ctx, tier, seed):
             rd2.append(f"rd {'t' if o['enc'] else 'p'} {o['d0']} {o['tid']} " + " ".join(hx(f) for f in frs))
             rd2_idx.append(ci)
     rd2m = dict(zip(rd2_idx, drv.batch(rd2)))
-    j = 0
+    hoff, _acc = [], 0
+    for _c, (_m, _o) in zip(hist_cases, houts):
+        hoff.append(_acc)
+        _acc += len(_o)
     for ci, (c, (mtu, outs_)) in enumerate(zip(hist_cases, houts)):
-        hist_txt = [("c%d" % ch) + ("E" if e else "P") + str(ln) for ch, e, ln in c["steps"]]
-        any_orc = False
-        for pos, o in enumerate(outs_):
-            m = hm[j]
-            j += 1
-            desc = dict(stream=c["stream"], mtu=mtu, max_write_without_response=c["mwwr"], failing_step=pos, fault_on_last_step=c["fault"],
-                        session_start_counters=(c["k0"], c["k0"] + 5), tid=o["tid"],
-                        history=[dict(char=ch, session="encrypted" if e else "plain", body_len=ln) for ch, e, ln in c["steps"][:pos + 1]],
-                        accessory="reference reassembler + ref.demo_answer (status (op+iid+tid)%7, body reversed, iid%5 + (1+tid%7)-byte pieces)")
-            orc = oracle_ble_hist(c, mtu, o)
-            any_orc = any_orc or bool(orc)
-            for slug, text in orc:
-                add_v(slug, f"step {pos} of history {hist_txt[:pos + 1]}: " + text,
-                      True, case=desc, impl_sizes=o["sizes"][:40], impl_read=o["read"][:100])
-            impl_w = o["impl_w"] if not (o["plains"] == [] and o["read"] in ("crash", "err value")) else o["read"]
-            if impl_w != m and not orc:
-                add_v("ble-session:model-mismatch", f"step {pos} of history {hist_txt[:pos + 1]} (mtu {mtu}): writes {impl_w[:100]} != model {m[:100]}",
-                      False, case=desc, impl=impl_w[:2000], model=m[:2000],
-                      broken="correspondence Model/Pdu.v ble_session_write/det_fs <-> ble/bleak.py determine_fragment_size + ble/client.py _write_pdu")
-            prev_plain_same_char = any((not e) and ch == o["ch"] for ch, e, _ in c["steps"][:pos])
-            cov.case(f"h{ci},{pos}", True,
-                     sample=dict(stream="ble:" + c["stream"], mtu=mtu, mwwr=c["mwwr"], history=hist_txt, step=pos, sizes=o["sizes"][:6],
-                                 read=o["read"][:40], fault=o["fault"]) if j % 1201 == 11 else None,
-                     hist_len=len(c["steps"]), hist_mtu=mtu, hist_mwwr=c["mwwr"], hist_step_session="enc" if o["enc"] else "plain",
-                     hist_enc_after_plain_same_char=bool(o["enc"] and prev_plain_same_char), hist_fault=o["fault"] or "none",
-                     hist_resp_frags=min(len(o["resp_frs"] or []), 20) if len(o["resp_frs"] or []) < 20 else "20+",
-                     hist_read=o["read"] if not o["read"].startswith("ok") else "ok", hist_k0=c["k0"])
-        # the closed-loop model (ble_loop with demo_responder) against whole fault-free segments of the real session
-        for seg, ans in loop_by_case.get(ci, []):
-            last = outs_[seg[-1]]
-            impl = f"ok {last['e1']} {last['d1']} {last['e1']} {last['d1']} " + " ".join(
-                (f"{outs_[p]['read'][3:].replace(' ', ':')}" if outs_[p]["read"].startswith("ok ") else "!" + outs_[p]["read"]) for p in seg)
-            if impl != ans and not any_orc:
-                add_v("ble-session:loop-model-mismatch", f"history {hist_txt} steps {seg}: session outcomes/counters {impl[:120]} != model ble_loop {ans[:120]}",
-                      False, case=dict(stream=c["stream"], mtu=mtu, mwwr=c["mwwr"], history=hist_txt, steps=seg), impl=impl[:2000], model=ans[:2000],
-                      broken="correspondence Model/Pdu.v ble_loop <-> repeated ble_request on one client with persistent keys")
-        if ci in rd2m and not any_orc and outs_[-1]["read"] != rd2m[ci]:
-            add_v("ble-session:fault-model-mismatch", f"history {hist_txt} fault {c['fault']}: {outs_[-1]['read'][:80]} != model {rd2m[ci][:80]}", False,
-                  case=dict(stream=c["stream"], history=hist_txt, fault=c["fault"]), impl=outs_[-1]["read"][:500], model=rd2m[ci][:500],
-                  broken="correspondence Model/Pdu.v read_pdu <-> ble/client.py _read_pdu on a live session")
+        with case_guard("ble-session", c):
+            hist_txt = [("c%d" % ch) + ("E" if e else "P") + str(ln) for ch, e, ln in c["steps"]]
+            any_orc = False
+            for pos, o in enumerate(outs_):
+                j = hoff[ci] + pos + 1
+                m = hm[j - 1]
+                desc = dict(stream=c["stream"], mtu=mtu, max_write_without_response=c["mwwr"], failing_step=pos, fault_on_last_step=c["fault"],
+                            session_start_counters=(c["k0"], c["k0"] + 5), tid=o["tid"],
+                            history=[dict(char=ch, session="encrypted" if e else "plain", body_len=ln) for ch, e, ln in c["steps"][:pos + 1]],
+                            accessory="reference reassembler + ref.demo_answer (status (op+iid+tid)%7, body reversed, iid%5 + (1+tid%7)-byte pieces)")
+                orc = oracle_ble_hist(c, mtu, o)
+                any_orc = any_orc or bool(orc)
+                for slug, text in orc:
+                    add_v(slug, f"step {pos} of history {hist_txt[:pos + 1]}: " + text,
+                          True, case=desc, impl_sizes=o["sizes"][:40], impl_read=o["read"][:100])
+                impl_w = o["impl_w"] if not (o["plains"] == [] and o["read"] in ("crash", "err value")) else o["read"]
+                if impl_w != m and not orc:
+                    add_v("ble-session:model-mismatch", f"step {pos} of history {hist_txt[:pos + 1]} (mtu {mtu}): writes {impl_w[:100]} != model {m[:100]}",
+                          False, case=desc, impl=impl_w[:2000], model=m[:2000],
+                          broken="correspondence Model/Pdu.v ble_session_write/det_fs <-> ble/bleak.py determine_fragment_size + ble/client.py _write_pdu")
+                prev_plain_same_char = any((not e) and ch == o["ch"] for ch, e, _ in c["steps"][:pos])
+                cov.case(f"h{ci},{pos}", True,
+                         sample=dict(stream="ble:" + c["stream"], mtu=mtu, mwwr=c["mwwr"], history=hist_txt, step=pos, sizes=o["sizes"][:6],
+                                     read=o["read"][:40], fault=o["fault"]) if j % 1201 == 11 else None,
+                         hist_len=len(c["steps"]), hist_mtu=mtu, hist_mwwr=c["mwwr"], hist_step_session="enc" if o["enc"] else "plain",
+                         hist_enc_after_plain_same_char=bool(o["enc"] and prev_plain_same_char), hist_fault=o["fault"] or "none",
+                         hist_resp_frags=min(len(o["resp_frs"] or []), 20) if len(o["resp_frs"] or []) < 20 else "20+",
+                         hist_read=o["read"] if not o["read"].startswith("ok") else "ok", hist_k0=c["k0"])
+            # the closed-loop model (ble_loop with demo_responder) against whole fault-free segments of the real session
+            for seg, ans in loop_by_case.get(ci, []):
+                last = outs_[seg[-1]]
+                impl = f"ok {last['e1']} {last['d1']} {last['e1']} {last['d1']} " + " ".join(
+                    (f"{outs_[p]['read'][3:].replace(' ', ':')}" if outs_[p]["read"].startswith("ok ") else "!" + outs_[p]["read"]) for p in seg)
+                if impl != ans and not any_orc:
+                    add_v("ble-session:loop-model-mismatch", f"history {hist_txt} steps {seg}: session outcomes/counters {impl[:120]} != model ble_loop {ans[:120]}",
+                          False, case=dict(stream=c["stream"], mtu=mtu, mwwr=c["mwwr"], history=hist_txt, steps=seg), impl=impl[:2000], model=ans[:2000],
+                          broken="correspondence Model/Pdu.v ble_loop <-> repeated ble_request on one client with persistent keys")
+            if ci in rd2m and not any_orc and outs_[-1]["read"] != rd2m[ci]:
+                add_v("ble-session:fault-model-mismatch", f"history {hist_txt} fault {c['fault']}: {outs_[-1]['read'][:80]} != model {rd2m[ci][:80]}", False,
+                      case=dict(stream=c["stream"], history=hist_txt, fault=c["fault"]), impl=outs_[-1]["read"][:500], model=rd2m[ci][:500],
+                      broken="correspondence Model/Pdu.v read_pdu <-> ble/client.py _read_pdu on a live session")
 
     # ---- coap
     coap_cases = gen_coap(tier, rng(seed, "c17coap"))
 
     async def all_coap():
-        return [await impl_coap(c) for c in coap_cases]
+        return [await safe(impl_coap, c) for c in coap_cases]
     couts = asyncio.run(all_coap())
+    coap_cases, couts = drop_failed("coap", coap_cases, couts)
     enc_lines = [f"cenc {c['op']} {','.join(str(i) for i in c['iids']) or '.'} {','.join(hx(d) for d in c['datas']) or '.'}" for c in coap_cases]
     dec_lines = [f"cdec 0 {hx(coap_response_bytes(c))}" for c in coap_cases]
     enc_model = drv.batch(enc_lines)
@@ -1645,47 +1722,49 @@ def _run(ctx, tier, seed):
     exit_ans = drv.batch(exit_lines)
     exit_model = {i: (exit_ans[2 * j], exit_ans[2 * j + 1]) for j, i in enumerate(exit_idx)}
     for i, (c, o) in enumerate(zip(coap_cases, couts)):
-        desc = dict(stream=c["stream"], n=c["n"], vec=c["vec"], iids=c["iids"][:8], aid=c["aid"], op=c["op"],
-                    datas=[hx(d)[:40] for d in c["datas"][:8]], items=[(a, b, s, hx(d)[:40]) for a, b, s, d in c["items"][:8]],
-                    mal=c["mal"], response=hx(coap_response_bytes(c))[:400])
-        orc = (oracle_coap(c, o) if c["stream"] == "outcomes" else
-               oracle_coap_badstatus(c, o) if c["mal"] and c["mal"][0] == "badstatus" else oracle_coap_request(c, o))
-        for slug, text in orc:
-            add_v(slug, text, True, case=desc, impl_results=o["results"][:400], impl_exits=o["exits"], impl_request=(o["request"] or "")[:200])
-        em = enc_model[i]
-        impl_req = ("ok " + o["request"]) if o["request"] is not None else o["results"]
-        if impl_req != em and not any(s.startswith("coap-request") for s, _ in orc):
-            add_v("coap-encode:model-mismatch", f"encode_all_pdus n={c['n']}: {impl_req[:100]} != model {em[:100]}", False, case=desc,
-                  impl=impl_req[:1000], model=em[:1000], broken="correspondence Model/Pdu.v coap_encode_all <-> coap/pdu.py encode_all_pdus")
-        dm = dec_model[i]
-        if o["request"] is not None and o["results"] != dm and not any(s.startswith("coap-decode") for s, _ in orc):
-            add_v("coap-decode:model-mismatch", f"decode_all_pdus on {desc['response'][:80]}: {o['results'][:100]} != model {dm[:100]}", False,
-                  case=desc, impl=o["results"][:1000], model=dm[:1000],
-                  broken="correspondence Model/Pdu.v coap_decode_all <-> coap/pdu.py decode_all_pdus")
-        if i in exit_model and o["results"] == dm:
-            m_all, m_err = exit_model[i]
-            for name, got in o["exits"].items():
-                if name == "read" and not all(body_decodable(unhx(t[2:])) for t in dm.split(" ")[1:] if t.startswith("b:")):
-                    continue
-                mm = model_exit_canon(m_all if name == "read" else m_err, c, name == "read")
-                if got != mm and not any(s.startswith("coap-exit:" + name) for s, _ in orc):
-                    add_v(f"coap-exit:{name}:model-mismatch", f"{name} exit on ids {c['iids'][:6]}: {got[:100]} != model {mm[:100]}", False,
-                          case=desc, impl=got[:1000], model=mm[:1000],
-                          broken="correspondence Model/Pdu.v zip_results <-> coap/connection.py *_exit loops")
-        cov.case(f"c{c['op']},{c['iids']},{[hx(d) for d in c['datas']]},{hx(coap_response_bytes(c))}", len(coap_response_bytes(c)) > 0,
-                 sample=dict(stream="coap:" + c["stream"], n=c["n"], outcome_vector=c["vec"][:6], impl_results=o["results"][:80]) if i % 3001 == 0 else None,
-                 coap_stream=c["stream"], coap_n=min(c["n"], 7), coap_result=" ".join(o["results"].split(" ")[:2]) if not o["results"].startswith("ok") else "ok",
-                 coap_mal=c["mal"][0] if c["mal"] else "none")
-        if c["stream"] == "outcomes":
-            for k in c["vec"]:
-                cov.hist["coap_item_kind"][k] += 1
+        with case_guard("coap", {k: v for k, v in c.items() if k != "datas"}):
+            desc = dict(stream=c["stream"], n=c["n"], vec=c["vec"], iids=c["iids"][:8], aid=c["aid"], op=c["op"],
+                        datas=[hx(d)[:40] for d in c["datas"][:8]], items=[(a, b, s, hx(d)[:40]) for a, b, s, d in c["items"][:8]],
+                        mal=c["mal"], response=hx(coap_response_bytes(c))[:400])
+            orc = (oracle_coap(c, o) if c["stream"] == "outcomes" else
+                   oracle_coap_badstatus(c, o) if c["mal"] and c["mal"][0] == "badstatus" else oracle_coap_request(c, o))
+            for slug, text in orc:
+                add_v(slug, text, True, case=desc, impl_results=o["results"][:400], impl_exits=o["exits"], impl_request=(o["request"] or "")[:200])
+            em = enc_model[i]
+            impl_req = ("ok " + o["request"]) if o["request"] is not None else o["results"]
+            if impl_req != em and not any(s.startswith("coap-request") for s, _ in orc):
+                add_v("coap-encode:model-mismatch", f"encode_all_pdus n={c['n']}: {impl_req[:100]} != model {em[:100]}", False, case=desc,
+                      impl=impl_req[:1000], model=em[:1000], broken="correspondence Model/Pdu.v coap_encode_all <-> coap/pdu.py encode_all_pdus")
+            dm = dec_model[i]
+            if o["request"] is not None and o["results"] != dm and not any(s.startswith("coap-decode") for s, _ in orc):
+                add_v("coap-decode:model-mismatch", f"decode_all_pdus on {desc['response'][:80]}: {o['results'][:100]} != model {dm[:100]}", False,
+                      case=desc, impl=o["results"][:1000], model=dm[:1000],
+                      broken="correspondence Model/Pdu.v coap_decode_all <-> coap/pdu.py decode_all_pdus")
+            if i in exit_model and o["results"] == dm:
+                m_all, m_err = exit_model[i]
+                for name, got in o["exits"].items():
+                    if name == "read" and not all(body_decodable(unhx(t[2:])) for t in dm.split(" ")[1:] if t.startswith("b:")):
+                        continue
+                    mm = model_exit_canon(m_all if name == "read" else m_err, c, name == "read")
+                    if got != mm and not any(s.startswith("coap-exit:" + name) for s, _ in orc):
+                        add_v(f"coap-exit:{name}:model-mismatch", f"{name} exit on ids {c['iids'][:6]}: {got[:100]} != model {mm[:100]}", False,
+                              case=desc, impl=got[:1000], model=mm[:1000],
+                              broken="correspondence Model/Pdu.v zip_results <-> coap/connection.py *_exit loops")
+            cov.case(f"c{c['op']},{c['iids']},{[hx(d) for d in c['datas']]},{hx(coap_response_bytes(c))}", len(coap_response_bytes(c)) > 0,
+                     sample=dict(stream="coap:" + c["stream"], n=c["n"], outcome_vector=c["vec"][:6], impl_results=o["results"][:80]) if i % 3001 == 0 else None,
+                     coap_stream=c["stream"], coap_n=min(c["n"], 7), coap_result=" ".join(o["results"].split(" ")[:2]) if not o["results"].startswith("ok") else "ok",
+                     coap_mal=c["mal"][0] if c["mal"] else "none")
+            if c["stream"] == "outcomes":
+                for k in c["vec"]:
+                    cov.hist["coap_item_kind"][k] += 1
 
     # ---- coap, repeated ids against a reactive accessory
     dup_cases = gen_coap_dup(tier, rng(seed, "c17dup"))
 
     async def all_dup():
-        return [await impl_coap_dup(c) for c in dup_cases]
+        return [await safe(impl_coap_dup, c) for c in dup_cases]
     douts = asyncio.run(all_dup())
+    dup_cases, douts = drop_failed("coap-ids", dup_cases, douts)
     names = ("read", "sub", "unsub", "write")
     l_enc, l_dec = [], []
     for c, o in zip(dup_cases, douts):
@@ -1721,47 +1800,49 @@ def _run(ctx, tier, seed):
         cache = [f"{t.split(':')[0]}:{hx(tlv_value(unhx(t.split(':')[1])) or b'')}" for t in wr.split(" ") if t != "."]
         return "ok " + (" ".join(f"{k[0]}.{k[1]}={v}" for k, v in sorted(d.items())) if d else "."), cache
     for ci, (c, o) in enumerate(zip(dup_cases, douts)):
-        desc = dict(stream=c["stream"], ids=c["ids"], per_position_outcomes=c["vec"], unknown_to_controller=c.get("unknown", []),
-                    read_path_known_iids=c["known_read"],
-                    accessory="answers wire position j with value a0+j|iid (okN), empty (ok0), status 1+j%6 (err), tid+1 (wtid), control 0 (wctl)")
-        orc = oracle_coap_dup(c, o)
-        for slug, text in orc:
-            add_v(slug, text, True, case=desc, impl={k: v for k, v in o.items()})
-        for ni, nm in enumerate(names):
-            j = 4 * ci + ni
-            wire = ("ok " + o[nm]["wire"][0]) if len(o[nm]["wire"]) == 1 else f"{len(o[nm]['wire'])} requests"
-            if not o[nm]["wire"] and o[nm]["result"] == "crash":
-                wire = "crash"
-            if wire != m_enc[j] and not any(sl in (f"coap-ids:{nm}-wire", "coap-read:one-shot-iterable") for sl, _ in orc):
-                add_v(f"coap-ids:{nm}-wire:model-mismatch", f"{nm} of ids {c['ids']}: sent {wire[:100]} != model {m_enc[j][:100]}", False,
-                      case=desc, impl=wire[:1000], model=m_enc[j][:1000],
-                      broken="correspondence Model/Pdu.v coap_encode_all <-> coap/connection.py request construction")
-            mm = model_pairs_canon(m_exit[j], c["ids"]) if m_dec[j].startswith("ok") else m_dec[j]
-            if nm == "read" and m_dec[j].startswith("ok"):
-                mm, mcache = crd_canon(m_crd[ci])
-                if mcache is not None and o[nm]["result"].startswith("ok") and o[nm]["cache"] != mcache and not orc:
-                    add_v("coap-ids:read-cache:model-mismatch", f"read of ids {c['ids']}: cache writes {o[nm]['cache'][:6]} != model {mcache[:6]}", False,
-                          case=desc, impl=o[nm]["cache"], model=mcache,
-                          broken="correspondence Model/Pdu.v coap_read_exit <-> coap/connection.py _read_characteristics_exit")
-            if o[nm]["result"] != mm and not any(sl.startswith(f"coap-ids:{nm}") or sl == "coap-read:one-shot-iterable" for sl, _ in orc):
-                add_v(f"coap-ids:{nm}:model-mismatch", f"{nm} of ids {c['ids']}: {o[nm]['result'][:100]} != model {mm[:100]}", False,
-                      case=desc, impl=o[nm]["result"][:1000], model=mm[:1000],
-                      broken="correspondence Model/Pdu.v coap_decode_all + zip_results <-> coap/connection.py")
-        nrep = len(c["ids"]) - len(set(map(tuple, c["ids"])))
-        iid_rep = len(c["ids"]) - len({k[1] for k in c["ids"]})
-        cov.case(f"u{c['ids']},{c['vec']},{c.get('unknown')}", True,
-                 sample=dict(stream="coap:" + c["stream"], ids=c["ids"], outcomes=c["vec"], read=o["read"]["result"][:80]) if ci % 1501 == 7 else None,
-                 dup_read_known=["all", "none", "first", "rest", "fixed"][ci % 5], dup_cache_writes=min(len(o["read"].get("cache", [])), 6),
-                 dup_stream=c["stream"], dup_unknown_keys=len(c.get("unknown", [])), dup_write=o["write"]["result"].split(" ")[0],
-                 dup_n=len(c["ids"]), dup_repeated_keys=min(nrep, 4), dup_repeated_iids=min(iid_rep, 4),
-                 dup_repeat_followed=any(c["ids"][i][1] in [k[1] for k in c["ids"][:i]] and i + 1 < len(c["ids"]) for i in range(len(c["ids"]))))
+        with case_guard("coap-ids", c):
+            desc = dict(stream=c["stream"], ids=c["ids"], per_position_outcomes=c["vec"], unknown_to_controller=c.get("unknown", []),
+                        read_path_known_iids=c["known_read"],
+                        accessory="answers wire position j with value a0+j|iid (okN), empty (ok0), status 1+j%6 (err), tid+1 (wtid), control 0 (wctl)")
+            orc = oracle_coap_dup(c, o)
+            for slug, text in orc:
+                add_v(slug, text, True, case=desc, impl={k: v for k, v in o.items()})
+            for ni, nm in enumerate(names):
+                j = 4 * ci + ni
+                wire = ("ok " + o[nm]["wire"][0]) if len(o[nm]["wire"]) == 1 else f"{len(o[nm]['wire'])} requests"
+                if not o[nm]["wire"] and o[nm]["result"] == "crash":
+                    wire = "crash"
+                if wire != m_enc[j] and not any(sl in (f"coap-ids:{nm}-wire", "coap-read:one-shot-iterable") for sl, _ in orc):
+                    add_v(f"coap-ids:{nm}-wire:model-mismatch", f"{nm} of ids {c['ids']}: sent {wire[:100]} != model {m_enc[j][:100]}", False,
+                          case=desc, impl=wire[:1000], model=m_enc[j][:1000],
+                          broken="correspondence Model/Pdu.v coap_encode_all <-> coap/connection.py request construction")
+                mm = model_pairs_canon(m_exit[j], c["ids"]) if m_dec[j].startswith("ok") else m_dec[j]
+                if nm == "read" and m_dec[j].startswith("ok"):
+                    mm, mcache = crd_canon(m_crd[ci])
+                    if mcache is not None and o[nm]["result"].startswith("ok") and o[nm]["cache"] != mcache and not orc:
+                        add_v("coap-ids:read-cache:model-mismatch", f"read of ids {c['ids']}: cache writes {o[nm]['cache'][:6]} != model {mcache[:6]}", False,
+                              case=desc, impl=o[nm]["cache"], model=mcache,
+                              broken="correspondence Model/Pdu.v coap_read_exit <-> coap/connection.py _read_characteristics_exit")
+                if o[nm]["result"] != mm and not any(sl.startswith(f"coap-ids:{nm}") or sl == "coap-read:one-shot-iterable" for sl, _ in orc):
+                    add_v(f"coap-ids:{nm}:model-mismatch", f"{nm} of ids {c['ids']}: {o[nm]['result'][:100]} != model {mm[:100]}", False,
+                          case=desc, impl=o[nm]["result"][:1000], model=mm[:1000],
+                          broken="correspondence Model/Pdu.v coap_decode_all + zip_results <-> coap/connection.py")
+            nrep = len(c["ids"]) - len(set(map(tuple, c["ids"])))
+            iid_rep = len(c["ids"]) - len({k[1] for k in c["ids"]})
+            cov.case(f"u{c['ids']},{c['vec']},{c.get('unknown')}", True,
+                     sample=dict(stream="coap:" + c["stream"], ids=c["ids"], outcomes=c["vec"], read=o["read"]["result"][:80]) if ci % 1501 == 7 else None,
+                     dup_read_known=["all", "none", "first", "rest", "fixed"][ci % 5], dup_cache_writes=min(len(o["read"].get("cache", [])), 6),
+                     dup_stream=c["stream"], dup_unknown_keys=len(c.get("unknown", [])), dup_write=o["write"]["result"].split(" ")[0],
+                     dup_n=len(c["ids"]), dup_repeated_keys=min(nrep, 4), dup_repeated_iids=min(iid_rep, 4),
+                     dup_repeat_followed=any(c["ids"][i][1] in [k[1] for k in c["ids"][:i]] and i + 1 < len(c["ids"]) for i in range(len(c["ids"]))))
 
     # ---- coap: overlapping calls on one connection
     ov_cases = gen_coap_overlap(tier, rng(seed, "c17ov"))
 
     async def all_ov():
-        return [await impl_coap_overlap(c) for c in ov_cases]
+        return [await safe(impl_coap_overlap, c) for c in ov_cases]
     ovouts = asyncio.run(all_ov())
+    ov_cases, ovouts = drop_failed("coap-overlap", ov_cases, ovouts)
     ov_dec = drv.batch([f"cdec 0 {(list(o.values())[0]['resp'] or ['-'])[0]}" for outs_ in ovouts for o in outs_])
     ov_exit_lines, k = [], 0
     for c, outs_ in zip(ov_cases, ovouts):
@@ -1769,28 +1850,32 @@ def _run(ctx, tier, seed):
             ov_exit_lines.append(f"cexit {'all' if call['path'] == 'read' else 'err'} {len(call['ids'])} {ov_dec[k][3:]}" if ov_dec[k].startswith("ok") else "bad")
             k += 1
     ov_exit = drv.batch(ov_exit_lines)
-    k = 0
+    ooff, _acc = [], 0
+    for _o in ovouts:
+        ooff.append(_acc)
+        _acc += len(_o)
     for oi, (c, outs_) in enumerate(zip(ov_cases, ovouts)):
-        sched = " ".join(f"{e}{i}" for e, i in c["schedule"])
-        desc = dict(stream=c["stream"], schedule=sched, calls=[dict(path=x["path"], ids=x["ids"], per_position_outcomes=x["vec"]) for x in c["calls"]],
-                    note="S_i starts call i (runs until its post_bytes is in flight), R_i delivers call i's own response")
-        for ci, (call, o) in enumerate(zip(c["calls"], outs_)):
-            orc = oracle_coap_dup(dict(ids=call["ids"], vec=call["vec"], posbase=call["posbase"], known_read=[]), o)
-            for slug, text in orc:
-                add_v(slug.replace("coap-ids:", "coap-overlap:"), f"call {ci} of overlapping calls [{sched}]: " + text, True, case=desc,
-                      impl=[list(x.values())[0]["result"][:300] for x in outs_])
-            res = list(o.values())[0]["result"]
-            mm = model_pairs_canon(ov_exit[k], call["ids"]) if ov_dec[k].startswith("ok") else ov_dec[k]
-            if res != mm and not orc:
-                add_v("coap-overlap:model-mismatch", f"call {ci} ({call['path']} of {call['ids']}) in [{sched}]: {res[:100]} != per-call model {mm[:100]}",
-                      False, case=desc, impl=res[:1000], model=mm[:1000],
-                      broken="correspondence: per-call model (coap_decode_all + zip_results on the call's own ids and response) <-> overlapping calls")
-            k += 1
-        cov.case(f"o{oi}", True,
-                 sample=dict(stream="coap:" + c["stream"], schedule=sched, calls=[(x["path"], x["ids"]) for x in c["calls"]],
-                             results=[list(x.values())[0]["result"][:60] for x in outs_]) if oi % 211 == 3 else None,
-                 ov_calls=len(c["calls"]), ov_paths="+".join(x["path"] for x in c["calls"]),
-                 ov_overlap="nested" if c["schedule"][1][0] == "S" else "sequential-start")
+        with case_guard("coap-overlap", c):
+            sched = " ".join(f"{e}{i}" for e, i in c["schedule"])
+            desc = dict(stream=c["stream"], schedule=sched, calls=[dict(path=x["path"], ids=x["ids"], per_position_outcomes=x["vec"]) for x in c["calls"]],
+                        note="S_i starts call i (runs until its post_bytes is in flight), R_i delivers call i's own response")
+            for ci, (call, o) in enumerate(zip(c["calls"], outs_)):
+                k = ooff[oi] + ci
+                orc = oracle_coap_dup(dict(ids=call["ids"], vec=call["vec"], posbase=call["posbase"], known_read=[]), o)
+                for slug, text in orc:
+                    add_v(slug.replace("coap-ids:", "coap-overlap:"), f"call {ci} of overlapping calls [{sched}]: " + text, True, case=desc,
+                          impl=[list(x.values())[0]["result"][:300] for x in outs_])
+                res = list(o.values())[0]["result"]
+                mm = model_pairs_canon(ov_exit[k], call["ids"]) if ov_dec[k].startswith("ok") else ov_dec[k]
+                if res != mm and not orc:
+                    add_v("coap-overlap:model-mismatch", f"call {ci} ({call['path']} of {call['ids']}) in [{sched}]: {res[:100]} != per-call model {mm[:100]}",
+                          False, case=desc, impl=res[:1000], model=mm[:1000],
+                          broken="correspondence: per-call model (coap_decode_all + zip_results on the call's own ids and response) <-> overlapping calls")
+            cov.case(f"o{oi}", True,
+                     sample=dict(stream="coap:" + c["stream"], schedule=sched, calls=[(x["path"], x["ids"]) for x in c["calls"]],
+                                 results=[list(x.values())[0]["result"][:60] for x in outs_]) if oi % 211 == 3 else None,
+                     ov_calls=len(c["calls"]), ov_paths="+".join(x["path"] for x in c["calls"]),
+                     ov_overlap="nested" if c["schedule"][1][0] == "S" else "sequential-start")
 
     # ---- extraction cross-check: a sample of the requests above, re-evaluated with vm_compute inside Coq
     if not ctx.get("replay"):
